@@ -225,5 +225,16 @@ theorem simple_path_shape {t : RTree} (hwf : t.WF) {a b : Nat} {P : List Nat}
     have := congrArg List.reverse sB.1; simpa using this
   rw [e, sA.1, this]
 
+/-- every simple path from `a` to `b` is the list `path_from_to(a, b)` returns -/
+theorem simple_path_eq_pathFromTo {t : RTree} (hwf : t.WF) {a b : Nat} {p : List Nat}
+    (h : IsSimplePath t p a b) : pathFromTo t a b = some p := by
+  have ha : a ∈ ids t := h.2.2.1 a (List.mem_of_head? h.1)
+  have hb : b ∈ ids t := h.2.2.1 b (List.mem_of_getLast? h.2.1)
+  by_cases hab : a = b
+  · subst hab
+    rw [simple_path_self h]; simp [pathFromTo]
+  · obtain ⟨pre, c, xs, ys, hpa, hpb, hd, hp⟩ := pathFromTo_shape hwf ha hb hab
+    rw [hp, simple_path_shape hwf h hpa hpb hd]
+
 end RTree
 end Ptn.C17
